@@ -52,6 +52,15 @@ def _mesh_validity(ctx, verts, faces, nper, what, tiles=True):
         ctx.check([v.id for v in f.vertices] == d, "face-data-vs-vertices", "%s: face.data %r but its vertex objects have ids %r" % (what, d, [v.id for v in f.vertices]))
         for a, b in zip(d, d[1:] + d[:1]):
             edges[(a, b)] = edges.get((a, b), 0) + 1
+        if nper == 3 and all(0 <= i < len(verts) for i in d):
+            # the triangle's own accessors describe the same three corners and the three sides between them
+            pts = [list(byid[i].data) for i in d if i in byid]
+            if len(pts) == 3:
+                closed = [list(q) for q in f.vertices_closed]
+                ctx.check(closed == pts + pts[:1], "triangle-accessors", "%s: face %r: vertices_closed is %r for corners %r" % (what, d, closed, pts))
+                sides = [[list(a_), list(b_)] for a_, b_ in f.edges]
+                ctx.check(sides == [[pts[0], pts[1]], [pts[1], pts[2]], [pts[2], pts[0]]], "triangle-accessors",
+                          "%s: face %r: edges is %r for corners %r" % (what, d, sides, pts))
     return byid, edges
 
 
@@ -383,7 +392,7 @@ def check_exports(case, ctx):
         o.tessellate(vertex_spacing=k)
         refs.append(([list(v.data) for v in o.vertices], [list(f.data) for f in o.faces]))
     objs = _fresh(case)
-    target = objs[0] if len(objs) == 1 else multi.SurfaceContainer(*objs)
+    target = objs[0] if len(objs) == 1 else build.container(multi.SurfaceContainer, objs, case["shapes"][0]["nu"] + case["shapes"][0]["nv"])
     pre = len(objs) == 1 and case["shapes"][0]["nu"] % 2 == 1
     ekw = {"update_delta": False}
     if pre:
@@ -527,7 +536,7 @@ def check_container(case, ctx):
         refs.append(([list(v.data) for v in o.vertices], [list(f.data) for f in o.faces]))
     objs = [build.make(d) for d in case["shapes"]]
     late = case["twice"] and len(objs) >= 2
-    cont = multi.SurfaceContainer(*(objs[:-1] if late else objs))
+    cont = build.container(multi.SurfaceContainer, objs[:-1] if late else objs, len(case["shapes"][0]["P"]) + case["n"])
     # containers hand their delta to the elements (the container's own sample_size uses another convention, 1/(n-1),
     # which is not part of this property), so the density is set through delta
     cont.delta = 1.0 / n
